@@ -53,7 +53,8 @@ def target_of(req) -> bytes:
 
 
 def snap_req(req):
-    return {"method": hx(req.data.method), "target": hx(target_of(req)), "version": hx(req.data.http_version),
+    return {"method": hx(req.data.method), "target": hx(target_of(req)), "path": hx(req.data.path), "authority": hx(req.data.authority),
+            "version": hx(req.data.http_version),
             "fields": [[hx(k), hx(v)] for k, v in req.headers.fields],
             "body": None if req.raw_content is None else hx(req.raw_content)}
 
